@@ -257,6 +257,11 @@ impl InputList {
                         "XML error near line {src_line}: invalid name '{name}'"
                     )));
                 }
+                if let (Event::Decl(_), true) = (&ok_ev, index > 0) {
+                    return Err(SvgdxError::ParseError(format!(
+                        "XML error near line {src_line}: XML declaration not at start of document"
+                    )));
+                }
                 let bad_ref = match &ok_ev {
                     Event::DocType(d) => {
                         declares_entities |= d.as_ref().windows(8).any(|w| w == b"<!ENTITY");
